@@ -56,6 +56,8 @@ let parse_op (s : string) : op =
   | ["eca"; k] -> OEnsureCanAdd (nn k)
   | ["rpa"; x] -> OReplaceAll (z_of_int (int_of_string x))
   | ["gap"] -> OPieces
+  | ["adp"; xs; sp] -> OAdopt (zs xs, zs sp)
+  | ["rel"] -> ORelease
   | _ -> failwith ("bad op " ^ s)
 
 (* two-queue cases: "b.<op>" = single-queue op on B, "<op>" on A; binary ops name [this] by 0 (A) / 1 (B) *)
@@ -86,6 +88,11 @@ let show_out = function
 (* what fresh memory holds in the harness: ASan fills new allocations with 0xbe bytes and the harness constructs its
    Queues inside buffers filled the same way, so the raw slots of trivial items can be compared exactly as well *)
 let jk = z_of_int (-1094795586)
+
+(* ReleaseRawDataArray: the array handed out is printed behind the result *)
+let extra owning (q : q1) = function
+  | ORelease -> "r" ^ String.concat "," (List.map (fun z -> string_of_int (int_of_z z)) (snd (release owning jk q)))
+  | _ -> ""
 
 let zl l = String.concat "," (List.map (fun z -> string_of_int (int_of_z z)) l)
 
@@ -120,22 +127,26 @@ let () =
           let o = parse_op s in
           let (q', r) = step1 owning jk small_queue_size !q o in
           let (l', r0) = step0 !l o in
-          q := q'; l := l';
+          l := l';
           if r <> r0 || List.map int_of_z (abs q') <> List.map int_of_z l' then ok0 := false;
-          Buffer.add_string buf (show_out r); Buffer.add_char buf ' ';
-          Buffer.add_string buf (show_state owning q'); Buffer.add_char buf ';') ops
+          Buffer.add_string buf (show_out r); Buffer.add_string buf (extra owning !q o); Buffer.add_char buf ' ';
+          Buffer.add_string buf (show_state owning q'); Buffer.add_char buf ';';
+          q := q') ops
       end else begin
         let p = ref (e, e) and l = ref ([], []) in
         List.iter (fun s ->
           let o = parse_op2 s in
           let ((a', b'), r) = step2 owning jk small_queue_size !p o in
           let ((la, lb), r0) = step20 !l o in
-          p := (a', b'); l := (la, lb);
+          l := (la, lb);
           if r <> r0 || List.map int_of_z (abs a') <> List.map int_of_z la
                      || List.map int_of_z (abs b') <> List.map int_of_z lb then ok0 := false;
-          Buffer.add_string buf (show_out r); Buffer.add_char buf ' ';
+          Buffer.add_string buf (show_out r);
+          (match o with OOn (bb, o1) -> Buffer.add_string buf (extra owning (if bb then snd !p else fst !p) o1) | _ -> ());
+          Buffer.add_char buf ' ';
           Buffer.add_string buf (show_state owning a'); Buffer.add_char buf '|';
-          Buffer.add_string buf (show_state owning b'); Buffer.add_char buf ';') ops
+          Buffer.add_string buf (show_state owning b'); Buffer.add_char buf ';';
+          p := (a', b')) ops
       end;
       Printf.printf "%d %s\n" k (Buffer.contents buf);
       if not !ok0 then Printf.printf "%d ORACLE FAIL model L1 deviates from L0 (refinement broken in the model itself)\n" k
